@@ -273,11 +273,13 @@ def main(argv=None):
 
     wall = round(time.time() - t_start, 2)
     # --- verdict
+    # a violation that was found (and replayed) stays a violation even if another task of the run crashed or stayed undecided; a crash
+    # without any violation is a checker failure (on the unchanged tree that is what a broken check looks like)
     code = 0
-    if crashes:
-        code = 3
-    elif violations:
+    if violations:
         code = 1
+    elif crashes:
+        code = 3
     elif undecided:
         code = 2
     n_trivial = sum(r.get("trivial", 0) for r in results if not r.get("crash"))
